@@ -74,6 +74,9 @@ type Device struct {
 	// delivered only after the tool has digested the first one).
 	JoinReplies bool
 	held        string
+	// OnLine is called for every input line before it is processed
+	// (process mode: scheduling / crash point).
+	OnLine func(k int, line string)
 	k           int
 	sysMode   bool
 	stalled   bool
@@ -158,6 +161,9 @@ func (d *Device) read() (string, bool) {
 	l, ok := d.Sess.ReadLine()
 	if ok {
 		d.k++
+		if d.OnLine != nil {
+			d.OnLine(d.k, l)
+		}
 	}
 	return l, ok
 }
